@@ -312,3 +312,49 @@ def module_constructions(prog: Program):
     if len(out) < 2:
         raise AnalysisError(f"anchor vanished: expected >= 2 Module(...) constructions in manager.py, found {len(out)}")
     return out
+
+
+def _risky_socket_calls(func_node):
+    """(call, covered) for calls of shutdown / getpeername / getsockname / setsockopt / send / recv ... on a `.conn`-like receiver
+    inside func_node; covered = lexically inside a try whose handlers catch OSError / Exception / everything"""
+    from ..program import ancestors
+    out = []
+    RISKY = ("shutdown", "getpeername", "setsockopt", "getsockopt", "detach")
+    for c in [x for x in ast.walk(func_node) if isinstance(x, ast.Call)]:
+        if isinstance(c.func, ast.Attribute) and c.func.attr in RISKY and (path_of(c.func.value) or "").endswith("conn"):
+            covered = False
+            a = getattr(c, "_parent", None)
+            prev = c
+            while a is not None and not isinstance(a, (ast.FunctionDef, ast.AsyncFunctionDef)):
+                if isinstance(a, ast.Try) and any(prev is b or any(prev is y for y in ast.walk(b)) for b in a.body):
+                    for h in a.handlers:
+                        names = [norm(x).split(".")[-1] for x in (h.type.elts if isinstance(h.type, ast.Tuple) else [h.type])] if h.type is not None else ["*"]
+                        if any(nm in ("*", "OSError", "Exception", "BaseException", "IOError", "error", "EnvironmentError") for nm in names):
+                            covered = True
+                prev = a
+                a = getattr(a, "_parent", None)
+            out.append((c, covered))
+    return out
+
+
+def teardown_socket_calls(prog):
+    """[(qualname, call, covered)] over Module.close, remove_module, disconnect_module and what they call inside manager.py;
+    the detector is run on fixtures/c03_socket_teardown.py on every call and must find exactly one uncovered and one covered site"""
+    import os
+    from ..program import _set_parents
+    fx = os.path.join(os.path.dirname(os.path.dirname(os.path.dirname(os.path.abspath(__file__)))), "fixtures", "c03_socket_teardown.py")
+    try:
+        t = ast.parse(open(fx, encoding="utf-8").read())
+    except OSError:
+        raise AnalysisError("fixture fixtures/c03_socket_teardown.py is missing")
+    _set_parents(t)
+    got = sorted(cov for _, cov in _risky_socket_calls(t))
+    if got != [False, True]:
+        raise AnalysisError(f"teardown detector no longer matches its positive example fixtures/c03_socket_teardown.py (found {got})")
+    m = prog.module(MGR)
+    todo = [q for q in ("Module.close", "MessageManager.remove_module", "MessageManager.disconnect_module", "MessageManager.close") if q in m.functions]
+    out = []
+    for q in todo:
+        for c, cov in _risky_socket_calls(m.functions[q].node):
+            out.append((q, c, cov))
+    return out
